@@ -40,4 +40,13 @@ def h_log_cmdSetStderr : Nat := 0xfa933cea6b5a50a6
 /-- hash of the normalised skeleton of Run (internal/dag/executor/command.go) -/
 def h_log_cmdRun : Nat := 0x36a7e9ecb008df69
 
+/-- hash of the normalised skeleton of * (internal/dag/scheduler/node.go) -/
+def h_rest_log_dag_scheduler_node_go : Nat := 0xd42b32c666181e44
+
+/-- hash of the normalised skeleton of * (internal/dag/executor/command.go) -/
+def h_rest_log_dag_executor_command_go : Nat := 0x05cf8d436bdc4458
+
+/-- hash of the normalised skeleton of * (internal/util/utils.go) -/
+def h_rest_log_util_utils_go : Nat := 0x0ed6c520f1bfd84b
+
 end BdModel.Canon.Log
